@@ -216,12 +216,18 @@ pub fn run_case(case: &Case, props: &[&str], with_counts: bool) -> CaseResult {
     // properties skip it (TLC would need hours to decode the unary runs).
     let raw = g.n * g.ch * ((g.bps + 7) / 8);
     let oversize = outcome == "ok" && bytes.len() > 4 * raw + 65536;
+    let stream_for_count: Option<(usize, ())> = stream.as_ref().map(|s| (s.count_bits(), ()));
     let (outcome, bytes, stream) = if oversize {
         ("oversize".to_string(), bytes[..42.min(bytes.len())].to_vec(), None)
     } else {
         (outcome, bytes, stream)
     };
     let nbytes_real = if oversize { detail_len(&out_len) } else { bytes.len() };
+    let cap31 = |x: usize| x.min((1usize << 31) - 1) as i64;
+    let (count_bytes, count_rem) = match (&stream_for_count, with_counts) {
+        (Some((cb, _)), true) => (cap31(*cb / 8), (*cb % 8) as i64),
+        _ => (-1, 0),
+    };
     let mut lines = vec![json!({
         "ev": "case", "id": case.id, "props": props,
         "ch": g.ch, "bps": g.bps, "rate": g.rate, "bs": g.bs, "n": g.n,
@@ -229,7 +235,7 @@ pub fn run_case(case: &Case, props: &[&str], with_counts: bool) -> CaseResult {
         "family": case.family, "relation": case.relation,
         "cfg": serde_json::to_string(&case.cfg).unwrap(),
         "outcome": outcome, "detail": detail,
-        "nbytes": nbytes_real, "rawbytes": raw, "bytes": bytes, "twin_equal": twin_equal, "modes_equal": modes_equal,
+        "nbytes": cap31(nbytes_real), "rawbytes": raw, "count_bytes": count_bytes, "count_rem": count_rem, "bytes": bytes, "twin_equal": twin_equal, "modes_equal": modes_equal,
         "delivery": format!("{:?}", case.delivery),
         "count": stream.as_ref().map_or(-1i64, |s| if with_counts { s.count_bits() as i64 } else { -1 }),
     })];
@@ -420,6 +426,15 @@ pub fn gen_cases(profile: &str, seed: u64, b: &Budget) -> Vec<Case> {
                 mode = [Mode::Mt(2), Mode::St, Mode::Mt(3), Mode::Mt(1)][k % 4].clone();
                 bps = [16, 24, 8, 20, 12][k % 5];
             }
+            "c08" if idx % 25 == 7 => {
+                // coded sizes of 2^32 + delta bits: reported sizes kept in 32 bits wrap (see the c09 profile)
+                family = "wrap32".to_string();
+                bps = if idx % 50 == 7 { 24 } else { 20 };
+                bs = if bps == 24 { [384, 1024, 4096, 600][(idx / 50) % 4] } else { [4608, 8192][(idx / 50) % 2] };
+                cfg = Cfg { block_size: bs, max_parameter: if idx % 75 == 7 { 0 } else { 14 }, use_lpc: idx % 100 != 7,
+                            fixed_max_order: if idx % 3 == 0 { 0 } else { 4 }, partitions: if idx % 2 == 0 { Some(16) } else { None }, ..Cfg::default() };
+                mode = Mode::St;
+            }
             "c04" => {
                 mode = if idx % 3 == 0 { Mode::Mt(2) } else if idx % 3 == 1 { Mode::St } else { Mode::Mt(1) };
             }
@@ -557,6 +572,29 @@ pub struct Summary {
     pub files: Vec<String>,
 }
 
+/// A frame, its header and a two-frame stream written into sinks that fail at various operations.
+fn failed_write_prelude(i: usize) {
+    use flacenc::component::BitRepr;
+    let _ = std::panic::catch_unwind(std::panic::AssertUnwindSafe(|| {
+        let g = Geometry { ch: 1 + i % 2, bps: 16, rate: 44100, bs: 64, n: 150 };
+        let mut rng = gen::rng_for(77, i as u64);
+        let chans = gen::signal(&mut rng, "noise_mid", "indep", g.ch, g.bps, g.n);
+        let cfg = Cfg { block_size: 64, ..Cfg::default() };
+        for mode in [Mode::Fl, Mode::St] {
+            if let Outcome::Ok(s) = enc::encode(&cfg, VecSource::new(&g, gen::interleave(&chans)), &mode) {
+                if let Some(f) = s.frame(0) {
+                    let mut u = crate::sink::UserSink::new(Some(i % 7), false);
+                    let _ = f.write(&mut u);
+                    let mut u = crate::sink::UserSink::new(Some(i % 3), false);
+                    let _ = f.header().write(&mut u);
+                }
+                let mut u = crate::sink::UserSink::new(Some(5 + i % 20), false);
+                let _ = s.write(&mut u);
+            }
+        }
+    }));
+}
+
 pub fn drive(cases: &[Case], props: &[&str], with_counts: bool, out: &Path, prefix: &str, shards: usize) -> Summary {
     let mut sh = Shards::new(out, prefix);
     let mut classes = BTreeSet::new();
@@ -564,6 +602,11 @@ pub fn drive(cases: &[Case], props: &[&str], with_counts: bool, out: &Path, pref
     let mut outcomes = BTreeSet::new();
     let mut samples = vec![];
     for (i, c) in cases.iter().enumerate() {
+        // all cases run on this one thread, so each case's history is every case before it; every fifth
+        // case is also preceded by writes that FAIL part-way (thread-local scratch buffers on error paths)
+        if i % 5 == 2 {
+            failed_write_prelude(i);
+        }
         let r = run_case(c, props, with_counts);
         classes.insert(c.class());
         kinds.extend(r.kinds.iter().cloned());
